@@ -345,6 +345,15 @@ def judge(ck, jobs, out_path, name, retry=True):
         raise vf.Infra("%s: %d executions recorded for %d streams" % (name, len(execs), len(jobs)))
     good = []          # indices to validate
     bad = []           # (index, what)
+    # a harness-side failure (the driver's own warm-up request unanswered under load, a wall-clock limit) decides nothing: such
+    # streams are run once more on their own before the run is given up as an infrastructure error
+    flaky = [i for i, (start, evs) in enumerate(execs) if any(e["e"] in ("Infra", "HarnessTimeout") for e in evs)]
+    if flaky and retry and len(flaky) <= 20:
+        again = vf.split_executions(vf.read_ndjson(run_driver(ck, [jobs[i] for i in flaky], name + "_again")))
+        if len(again) == len(flaky):
+            for i, ex in zip(flaky, again):
+                execs[i] = ex
+            ck.note("%s: %d stream(s) re-run after a harness-side failure" % (name, len(flaky)))
     for i, (start, evs) in enumerate(execs):
         names = [e["e"] for e in evs]
         if "Infra" in names or "HarnessTimeout" in names:
